@@ -38,7 +38,7 @@ func TestC11(t *testing.T) {
 			unreachableOwner(rec, c)
 		}
 	}
-	q := rec.N(2, 12)
+	q := rec.N(3, 16)
 	for c := 0; c < q; c++ {
 		if rec.Mine(c + 1) {
 			noQuorum(rec, c)
@@ -49,7 +49,132 @@ func TestC11(t *testing.T) {
 		if rec.Mine(c + 4) {
 			refusedWriteWithAReplicaDown(rec, c)
 		}
+		if rec.Mine(c + 5) {
+			writesDuringRestartReplay(rec, c)
+		}
 	}
+}
+
+// Writes that arrive while a node is coming back: the node replays its partition's log (entries its earlier
+// incarnation proposed, with their callers long gone) while new callers already wait for the outcome of their own
+// proposals. Every outcome goes to its own caller: an update of an id that was never inserted is refused whenever it
+// is answered at all, and an acknowledged insert is in the partition afterwards.
+func writesDuringRestartReplay(rec *mon.Recorder, c int) {
+	rng := rec.Rand("c11-replay", c)
+	history := 150 + rng.Intn(250)
+	desc := fmt.Sprintf("writes-during-restart-replay case=%d nodes=1 entries-to-replay=%d", c, history)
+	rec.Current(desc)
+	cl := sim.New(sim.Options{Nodes: 1, Dir: os.Getenv("VERIF_SCRATCH") + fmt.Sprintf("/c11w-%d", c), TickEvery: 10 * time.Millisecond, Seed: rec.Seed() + int64(c)})
+	defer cl.Close()
+	if err := cl.Start(); err != nil {
+		rec.Inconclusive(desc + ": cluster start: " + err.Error())
+		return
+	}
+	dsId, meta, err := cl.CreateDataset(0, 3, 1, 1, pb.Space_Euclidean)
+	if err != nil {
+		rec.Inconclusive(desc + ": create dataset: " + err.Error())
+		return
+	}
+	pid := uuid.FromBytesOrNil(meta.Partitions[0].Id)
+	ctx := context.Background()
+	n0 := cl.Nodes[0]
+	for i := 0; i < history; i++ {
+		cctx, cancel := context.WithTimeout(ctx, 5*time.Second)
+		err := n0.Dataset(dsId).Insert(cctx, hx.Id(c*100000+i), []float32{float32(i), 1, 2}, nil)
+		cancel()
+		if err != nil {
+			rec.Inconclusive(fmt.Sprintf("%s: insert: %v", desc, err))
+			return
+		}
+	}
+	replay := map[string]interface{}{"case": c, "seed": rec.Seed(), "desc": desc}
+	var stop int32
+	var wg sync.WaitGroup
+	var answered, refused int64
+	var ackedInserts sync.Map
+	var bad atomic.Value
+	for w := 0; w < 6; w++ {
+		wg.Add(1)
+		go func(w int) {
+			defer wg.Done()
+			for k := 0; atomic.LoadInt32(&stop) == 0; k++ {
+				ds := n0.Dataset(dsId)
+				if n0.Dead() || ds == nil {
+					time.Sleep(200 * time.Microsecond)
+					continue
+				}
+				id := hx.Id(c*100000 + 50000 + w*5000 + k)
+				cctx, cancel := context.WithTimeout(ctx, 2*time.Second)
+				var err error
+				func() {
+					defer func() {
+						if p := recover(); p != nil {
+							err = fmt.Errorf("panic: %v", p) // a server half torn down by the restart
+						}
+					}()
+					if k%3 == 2 {
+						if err = ds.Insert(cctx, id, []float32{9, 9, 9}, nil); err == nil {
+							ackedInserts.Store(id, true)
+						}
+						return
+					}
+					err = ds.Update(cctx, id, []float32{9, 9, 9}, nil)
+					if err == nil && bad.Load() == nil {
+						bad.Store(fmt.Sprintf("an update of id %s, which was never inserted, was acknowledged", id))
+					}
+					if err != nil && stringsContain(err.Error(), "not found") {
+						atomic.AddInt64(&refused, 1)
+					}
+				}()
+				cancel()
+				atomic.AddInt64(&answered, 1)
+			}
+		}(w)
+	}
+	time.Sleep(20 * time.Millisecond)
+	rerr := cl.Restart(0)
+	// the writers go on for a little after the node is back
+	time.Sleep(300 * time.Millisecond)
+	atomic.StoreInt32(&stop, 1)
+	wg.Wait()
+	if rerr != nil {
+		rec.Inconclusive(fmt.Sprintf("%s: restart: %v", desc, rerr))
+		return
+	}
+	rec.Count("writes_answered_around_a_restart", atomic.LoadInt64(&answered))
+	rec.Count("refused_writes_answered_after_a_restart", atomic.LoadInt64(&refused))
+	if b := bad.Load(); b != nil {
+		rec.Violation("ack:success-for-a-refused-write:update-of-an-absent-id-during-restart-replay", fmt.Sprintf("%s: %s while the node was replaying its partition's log", desc, b), replay)
+		return
+	}
+	// every acknowledged insert is in the partition once the node has applied its log
+	var idx *index.Hnsw
+	cl.WaitFor(15*time.Second, func() bool {
+		idx = cl.Nodes[0].PartitionIndex(dsId, pid)
+		g := cl.Nodes[0].PartitionRaft(dsId, pid)
+		if idx == nil || g == nil {
+			return false
+		}
+		st := g.VerifStatus()
+		return st.Lead != 0 && st.Applied == st.Commit
+	})
+	if idx == nil {
+		rec.Inconclusive(desc + ": partition not loaded after the restart")
+		return
+	}
+	missing := ""
+	ackedInserts.Range(func(k, _ interface{}) bool {
+		if _, err := idx.Get(k.(uuid.UUID)); err != nil {
+			missing = k.(uuid.UUID).String()
+			return false
+		}
+		return true
+	})
+	if missing != "" {
+		rec.Violation("ack:acknowledged-insert-not-applied:during-restart-replay", fmt.Sprintf("%s: the insert of %s was acknowledged while the node was coming back, and the partition does not hold it", desc, missing), replay)
+		return
+	}
+	rec.Case(mon.Digest(desc), true)
 }
 
 // A write that the partition refuses (an insert of an id it holds, a removal or update of an id it does not hold) is
